@@ -420,6 +420,8 @@ extern "C" ssize_t readv(int fd, const struct iovec *iov, int cnt)
 	if (r > 0) g_inpipe -= r;
 	return r;
 }
+static bool g_src_slack = false;   // the pushed message lies inside a larger caller buffer (a wrong source offset shows as wrong content, not as overflow)
+static uint64_t g_push_grow[4];   // single push calls during which the write buffer was enlarged 0 / 1 / 2 / >= 3 times
 struct L2recv { std::vector<Bytes> got; };
 static int l2_cb(void *arg, const message *m)
 {
@@ -487,7 +489,7 @@ static void level2_body(Run &r, L2Counters &c, int f, const std::vector<Bytes> &
 						phase = 1;
 					}
 					else if (m.empty()) phase = 1;
-					else { uint8_t *src = (uint8_t *) malloc(m.size()); memcpy(src, m.data(), m.size()); ssize_t k = LIB(mpt_stream_push(&snd, m.size(), src)); free(src); r.note("push %zu -> %zd", m.size(), k); if (k != (ssize_t) m.size()) { r.violation(sc + "|push|refused", desc + fmt(": mpt_stream_push(%zu) returned %zd on a resizable write buffer", m.size(), k)); bad = true; } phase = 1; }
+					else { size_t slack = g_src_slack ? m.size() : 0; uint8_t *src = (uint8_t *) malloc(m.size() + slack); memcpy(src, m.data(), m.size()); memset(src + m.size(), 0xA5, slack); size_t max0 = snd._wd.max; ssize_t k = LIB(mpt_stream_push(&snd, m.size(), src)); free(src); size_t grows = (snd._wd.max - max0 + 255) / 256; ++g_push_grow[grows > 3 ? 3 : grows]; r.note("push %zu -> %zd (write buffer %zu -> %zu)", m.size(), k, max0, snd._wd.max); if (k != (ssize_t) m.size()) { r.violation(sc + "|push|refused", desc + fmt(": mpt_stream_push(%zu) returned %zd on a resizable write buffer", m.size(), k)); bad = true; } phase = 1; }
 				} else if (mi < msgs.size() && phase == 1) {
 					r.hint((sc + "|end").c_str());
 					ssize_t k = LIB(mpt_stream_push(&snd, 0, 0)); r.note("end -> %zd", k);
@@ -531,8 +533,28 @@ static const std::vector<std::vector<Bytes>> &long_streams()
 	}
 	return v;
 }
+// messages handed to ONE mpt_stream_push call that the write buffer cannot take at once: the call is completed in
+// 2, 3, 4.. parts with a buffer enlargement between them.  Content depends on the position (no period that a wrong
+// source offset could hide behind), with and without zero bytes; alone and behind a short frame.
+static Bytes posdep(size_t n, bool zeros)
+{
+	Bytes b(n);
+	for (size_t i = 0; i < n; ++i) { uint8_t v = (uint8_t) (i * 31 + (i >> 8) * 17 + (i >> 4) + 1); if (!v && !zeros) v = 0x80; if (zeros && i % 97 == 50) v = 0; b[i] = v; }
+	return b;
+}
+static const std::vector<std::vector<Bytes>> &split_streams()
+{
+	static std::vector<std::vector<Bytes>> v;
+	if (v.empty()) {
+		for (size_t k : {200, 300, 520, 600, 900, 1500}) for (int z = 0; z < 2; ++z) v.push_back({posdep(k, z != 0)});
+		v.push_back({Bytes{'b', 0}, posdep(700, true)});
+		v.push_back({posdep(700, false), posdep(800, true)});
+	}
+	return v;
+}
 void mc_jobs(Tier t, std::vector<std::string> &jobs)
 {
+	for (int f = 0; f < 4; ++f) for (size_t i = 0; i < split_streams().size(); ++i) jobs.push_back(fmt("L2P:%d:%zu", f, i));
 	std::vector<std::vector<int>> seqs; sequences(t, seqs);
 	for (int f = 0; f < 4; ++f) for (size_t i = 0; i < seqs.size(); ++i) jobs.push_back(fmt("%d:%zu", f, i));
 	for (int f = 0; f < 4; ++f) for (size_t i = 0; i < seqs.size(); ++i) jobs.push_back(fmt("L2:%d:%zu", f, i));
@@ -565,6 +587,21 @@ static void run(Run &r, const std::string &job, const Vec *rep)
 		if (rep) { dfs_replay(r, [&](Ctx &x) { level2_body(r, c, f, msgs, x, false, true); }, *rep); return; }
 		dfs(r, [&](Ctx &x) { level2_body(r, c, f, msgs, x, false, true); }, dev);
 		r.states += c.exec; r.count("stream_level_executions", c.exec); r.count("stream_level_input_object", c.exec); r.count("nontrivial", c.nontrivial);
+		return;
+	}
+	if (job.compare(0, 4, "L2P:") == 0) {
+		if (sscanf(job.c_str() + 4, "%d:%zu", &f, &si) != 2 || si >= split_streams().size()) return;
+		const std::vector<Bytes> &msgs = split_streams()[si];
+		L2Counters c = {};
+		int dev = r.tier == Quick ? 1 : 2;
+		// leading choice: source buffer exactly sized (ASan redzone directly behind it) / inside a larger caller buffer
+		auto body = [&](Ctx &x) { g_src_slack = x.choose(2) != 0; level2_body(r, c, f, msgs, x); g_src_slack = false; };
+		if (rep) { dfs_replay(r, body, *rep); return; }
+		memset(g_push_grow, 0, sizeof(g_push_grow));
+		dfs(r, body, dev + 1);
+		r.states += c.exec; r.count("stream_level_executions", c.exec); r.count("stream_level_split_push", c.exec); r.count("nontrivial", c.nontrivial);
+		r.count("single_push_buffer_grown_once", g_push_grow[1]); r.count("single_push_buffer_grown_twice", g_push_grow[2]); r.count("single_push_buffer_grown_3plus", g_push_grow[3]);
+		if (msgs.back().size() >= 900) { r.require("single_push_buffer_grown_3plus"); }
 		return;
 	}
 	if (job.compare(0, 4, "L2L:") == 0) {
